@@ -20,3 +20,113 @@ def extract(read):
     else:
         out.append("-- parserMaxNestingDepth: NOT FOUND in source (dependent theorems will not build)\n")
     return "\n".join(out)
+
+
+# ---- parser call graph: every cycle must pass a function that calls the depth guard ------------
+import os as _os
+
+
+def _strip(src):
+    src = re.sub(r"//[^\n]*", "", src)
+    src = re.sub(r'"(?:[^"\\]|\\.)*"', '""', src)
+    i = src.find("#[cfg(test)]")
+    return src if i < 0 else src[:i]
+
+
+def _functions(read, rels):
+    """(key, body) for every fn of the parser sources; key = 'm:name' for methods (first parameter
+    is self), 'f:name' for free functions"""
+    fn_re = re.compile(r"^\s*(?:pub(?:\([^)]*\))?\s+)?fn\s+(\w+)\s*(?:<[^>]*>)?\s*\(([^)]*)", re.M)
+    out = {}
+    for rel in rels:
+        src = _strip(read(rel))
+        for m in fn_re.finditer(src):
+            j = src.find("{", m.end())
+            semi = src.find(";", m.end())
+            if j < 0 or (0 <= semi < j):
+                continue
+            d, k = 0, j
+            while k < len(src):
+                if src[k] == "{":
+                    d += 1
+                elif src[k] == "}":
+                    d -= 1
+                    if d == 0:
+                        break
+                k += 1
+            kind = "m" if re.search(r"\bself\b", m.group(2)) else "f"
+            out.setdefault("%s:%s" % (kind, m.group(1)), []).append(src[j + 1:k])
+    return out
+
+
+def _call_graph(read):
+    base = "crates/vibesql-parser/src/parser"
+    repo = _os.environ.get("VERIF_REPO", "/repo")
+    rels = []
+    for dp, _dn, fns in _os.walk(_os.path.join(repo, base)):
+        for f in sorted(fns):
+            if f.endswith(".rs"):
+                rels.append(_os.path.relpath(_os.path.join(dp, f), repo))
+    rels.sort()
+    funcs = _functions(read, rels)
+    graph, guarded = {}, set()
+    for key, bodies in funcs.items():
+        cal = set()
+        for b in bodies:
+            # method calls: x.name(   and   Self::name / Parser::name (call or fn item)
+            for m in re.finditer(r"\.\s*(\w+)\s*(?:::<[^>]*>)?\s*\(", b):
+                if "m:" + m.group(1) in funcs:
+                    cal.add("m:" + m.group(1))
+            for m in re.finditer(r"\b(?:Self|Parser)::(\w+)\b", b):
+                if "m:" + m.group(1) in funcs:
+                    cal.add("m:" + m.group(1))
+            # free function calls: name(   or   path::name(
+            for m in re.finditer(r"(?<![\w.])(?:\w+::)*(\w+)\s*(?:::<[^>]*>)?\s*\(", b):
+                pre = b[max(0, m.start() - 6):m.start(1)]
+                if pre.endswith("Self::") or pre.endswith("arser::"):
+                    continue
+                if "f:" + m.group(1) in funcs:
+                    cal.add("f:" + m.group(1))
+            if "enter_nesting" in b and key != "m:enter_nesting":
+                guarded.add(key)
+        graph[key] = cal
+    return graph, guarded
+
+
+def _topo(graph, guarded):
+    """callees-first order of the unguarded functions; functions on an unguarded cycle are left
+    over and appended at the end (the Lean check then fails, as it must)"""
+    sub = {k: sorted(c for c in v if c not in guarded) for k, v in graph.items() if k not in guarded}
+    order, placed = [], set()
+    progress = True
+    while progress:
+        progress = False
+        for k in sorted(sub):
+            if k not in placed and all(c in placed for c in sub[k]):
+                order.append(k)
+                placed.add(k)
+                progress = True
+    stuck = [k for k in sorted(sub) if k not in placed]
+    return order + stuck, sub, stuck
+
+
+_extract_tables = extract
+
+
+def extract(read):  # noqa: F811  (wraps the table extractor above)
+    text = _extract_tables(read)
+    graph, guarded = _call_graph(read)
+    if not graph or not guarded:
+        return text + "\n-- parserUnguardedCalls: NOT FOUND in source (dependent theorems will not build)\n"
+    order, sub, stuck = _topo(graph, guarded)
+    pos = {k: i for i, k in enumerate(order)}
+    rows = ", ".join('("%s", [%s])' % (k.split(":", 1)[1] + ("" if k[0] == "m" else " (fn)"),
+                                     ", ".join(str(pos[c]) for c in sub[k])) for k in order)
+    text += ("\n/-- parser/**/*.rs: every function that does NOT call `enter_nesting`, in callees-first order, with the\n"
+             "    positions (in this list) of the unguarded parser functions it calls. %d functions, %d guarded ones\n"
+             "    left out%s. -/\n"
+             "def parserUnguardedCalls : List (String × List Nat) := [%s]\n"
+             % (len(graph), len(guarded), ("; ON AN UNGUARDED CYCLE: " + " ".join(stuck)) if stuck else "", rows))
+    text += ("\n/-- the parser functions that call `enter_nesting` -/\n"
+             "def parserGuardedFns : List String := [%s]\n" % ", ".join('"%s"' % g.split(":", 1)[1] for g in sorted(guarded)))
+    return text
